@@ -30,6 +30,7 @@ from harness import indep_ber as B
 from harness import indep_usm as U
 from harness import refagent as RA
 from harness import walklib as W
+from harness import usmparams as UP
 from harness.common import Result, run_driver
 
 ASSUMPTIONS = [
@@ -38,6 +39,10 @@ ASSUMPTIONS = [
 ]
 OID = [1, 3, 6, 1, 2, 1, 1, 1, 0]
 SUBST = [0x00, 0x01, 0x02, 0x04, 0x05, 0x06, 0x30, 0x7F, 0x80, 0x81, 0x82, 0x84, 0xFF]
+# identifier octets of the SNMP application types and PDUs (subclasses of the universal types in
+# puresnmp: an isinstance check lets them through where an INTEGER / OCTET STRING is expected)
+TAG_SUBST = [0x40, 0x41, 0x42, 0x43, 0x44, 0x45, 0x46, 0xA0, 0xA1, 0xA2, 0xA3, 0xA5, 0xA6, 0xA7, 0xA8, 0x24, 0x22, 0x31, 0x0A, 0x03, 0x09, 0x0C, 0x1E]
+TAG_SUBST_QUICK = [0x43, 0x40, 0x41, 0x44, 0xA2, 0xA5, 0xA8]
 BUDGET = 1.0  # CPU seconds (see berlib.guarded); generous: tracemalloc and a loaded machine cost a factor ~10
 
 
@@ -56,6 +61,7 @@ def fixed_clock():
 def header_positions(dg):
     """indices of identifier and length octets of every TLV the independent reader can reach"""
     out = set()
+    tags = set()
 
     def walk(b, base, depth):
         i = 0
@@ -66,12 +72,13 @@ def header_positions(dg):
                 return
             hdr_end = end - len(c)
             out.update(range(base + i, base + hdr_end))
+            tags.add(base + i)
             if tag & 0x20 or (tag == 4 and len(c) > 2 and c[0] == 0x30):
                 walk(c, base + hdr_end, depth + 1)
             i = end
 
     walk(dg, 0, 0)
-    return sorted(out)
+    return sorted(out), sorted(tags)
 
 
 def mutations(ctx, dg):
@@ -87,10 +94,15 @@ def mutations(ctx, dg):
     cuts = range(len(dg)) if not ctx.quick else sorted(set(list(range(0, min(len(dg), 12))) + rng.sample(range(len(dg)), min(25, len(dg)))))
     for n in cuts:
         out.append(("truncate", dg[:n]))
-    for pos in header_positions(dg):
+    positions, tag_positions = header_positions(dg)
+    for pos in positions:
         for v in SUBST if not ctx.quick else [0x80, 0x84, 0xFF, 0x00, 0x30, 0x02, 0x04]:
             if dg[pos] != v:
                 out.append(("header", dg[:pos] + bytes([v]) + dg[pos + 1 :]))
+    for pos in tag_positions:
+        for v in TAG_SUBST if not ctx.quick else TAG_SUBST_QUICK:
+            if dg[pos] != v:
+                out.append(("header-tag", dg[:pos] + bytes([v]) + dg[pos + 1 :]))
     return out
 
 
@@ -116,6 +128,18 @@ def make_world(version, level):
     return agent, s, Client("127.0.0.1", creds, sender=s)
 
 
+def follow_up(client):
+    """the next request on the same client: a result within 10 s of (idle) waiting, or not usable.
+    A request that waits for ever burns no CPU, so this is a bound on the event loop's clock; the
+    CPU guard around it catches the spinning kind."""
+    import asyncio
+
+    async def go():
+        return await asyncio.wait_for(client.get(RA.OID(OID)), 10.0)
+
+    return BL.guarded(lambda: RA.canon_value(W.run(go())), 2.0)
+
+
 def deliver_response(version, level, dg, warm=True):
     """one Client call whose sender returns `dg`, then a valid request on the same client"""
     agent, s, client = make_world(version, level)
@@ -127,7 +151,7 @@ def deliver_response(version, level, dg, warm=True):
         r = BL.guarded(lambda: W.run(client.getnext(RA.OID(OID[:-1]))), budget(dg))
     dt = time.process_time() - t0
     s.queue.clear()
-    after = BL.guarded(lambda: RA.canon_value(W.run(client.get(RA.OID(OID)))), 2.0)
+    after = follow_up(client)
     return r[0], dt, after == ("ok", ["str", "6f6b"])
 
 
@@ -139,7 +163,7 @@ def deliver_discovery(level, dg):
         r = BL.guarded(lambda: W.run(client.get(RA.OID(OID))), budget(dg))
     dt = time.process_time() - t0
     s.queue.clear()
-    after = BL.guarded(lambda: RA.canon_value(W.run(client.get(RA.OID(OID)))), 2.0)
+    after = follow_up(client)
     return r[0], dt, after == ("ok", ["str", "6f6b"])
 
 
@@ -245,11 +269,16 @@ def run(ctx):
     hangs, slow = [], []
     seen = set()
     tracemalloc.start()
+    unusable = {}
     for entry, version, level, kind, m in cases:
         key = (entry, version, level, m)
         if key in seen:
             continue
         seen.add(key)
+        if unusable.get(entry, 0) >= 10:
+            # the verdict is in (each of these costs a full time budget): do not spend an hour on the rest
+            res.count(f"skipped-after-10-unusable:{entry}")
+            continue
         tracemalloc.reset_peak()
         base_mem = tracemalloc.get_traced_memory()[0]
         if entry == "response":
@@ -269,6 +298,7 @@ def run(ctx):
         elif peak > 64 * max(1, len(m)) + (6 << 20):
             res.violate("cost", {**case, "peak_bytes": peak}, "memory bounded by a small multiple of the datagram size (+ the constant key-derivation buffers)", peak, f"processing a {len(m)}-octet datagram allocated {peak >> 20} MiB", {"kind": "memory"})
         if not usable:
+            unusable[entry] = unusable.get(entry, 0) + 1
             res.violate("mutation-sweep", case, "follow-up request succeeds", "follow-up failed", "the client (listener) was not usable after this datagram", {"kind": "unusable-after", "entry": entry})
     # hangs must be the ones the x690 mirror predicts
     extra = {}
@@ -333,6 +363,7 @@ def run(ctx):
         if dt > 0.05 + 20e-6 * len(dg):
             res.violate("cost", {"long_subidentifier_octets": n, "datagram_octets": len(dg), "seconds": round(dt, 3)}, "time linear in the datagram size", round(dt, 3), f"decoding an OID with one {n}-octet sub-identifier took {dt:.2f} s", {"kind": "superlinear", "where": "oid-subidentifier"})
     tracemalloc.stop()
+    UP.run(ctx, res)  # unit level: USMSecurityParameters.decode vs the model, every identifier octet
     res.notes.append(f"long sub-identifier timings (octets, seconds): {[(n, round(t, 3)) for n, t in slow]}")
     return res
 
